@@ -278,3 +278,14 @@ def get_direct_dependencies(task: Task) -> OrderedSet[Task]:
         for dependency_task in find_tasks_in_param(field_value):
             dependency_tasks.add(dependency_task)
     return dependency_tasks
+
+
+def get_direct_dependency_instances(task: Task) -> list[Task]:
+    """Return every task object found in the attributes of the given
+    task, including distinct objects that compare equal to each other
+    (which get_direct_dependencies() collapses into one)."""
+    return [
+        dependency_task
+        for field in fields(task)
+        for dependency_task in find_tasks_in_param(getattr(task, field.name))
+    ]
